@@ -687,11 +687,14 @@ static std::string errText() {
   }
   return s;
 }
-static void printLine(const char *tag, const char *algo, const char *it, const char *el, long n, long k, const std::string &ret,
-                      bool threw, const std::string &dst, const std::string &src) {
-  std::printf("%s %s %s %s n=%ld k=%s | ret=%s | threw=%d | dst=%s | src=%s | live=%ld%s\n", tag, algo, it, el, n,
-              k < 0 ? "-" : S(k).c_str(), threw ? "-" : ret.c_str(), threw ? 1 : 0, dst.c_str(), src.c_str(), G().live,
-              errText().c_str());
+// the head of the line is written (and flushed) BEFORE the call, so that a crash inside the call names its case
+static void printHead(const char *tag, const char *algo, const char *it, const char *el, long n, long k) {
+  std::printf("%s %s %s %s n=%ld k=%s |", tag, algo, it, el, n, k < 0 ? "-" : S(k).c_str());
+  std::fflush(stdout);
+}
+static void printTail(const std::string &ret, bool threw, const std::string &dst, const std::string &src) {
+  std::printf(" ret=%s | threw=%d | dst=%s | src=%s | live=%ld%s\n", threw ? "-" : ret.c_str(), threw ? 1 : 0, dst.c_str(),
+              src.c_str(), G().live, errText().c_str());
 }
 
 // one run of a two-range algorithm; returns the number of throwing-capable events seen
@@ -704,6 +707,7 @@ long runTwo(long n, long k) {
     Buf<T> dst(n + 1);
     std::string ret;
     bool threw = false;
+    printHead(Lib::tag(), A::name(), Src::name(), Tr<T>::name(), n, k);
     G().throwingEvents = 0;
     G().countdown = k;
     try {
@@ -716,7 +720,7 @@ long runTwo(long n, long k) {
     std::vector<long> claimed;
     std::string ds = slotStates(dst.data, dst.cnt, claimed);
     std::string ss = src.states(claimed);
-    printLine(Lib::tag(), A::name(), Src::name(), Tr<T>::name(), n, k, ret, threw, ds, ss);
+    printTail(ret, threw, ds, ss);
     killAll(dst.data, dst.cnt);
     src.cleanup();
   }
@@ -732,6 +736,7 @@ long runCtor(long n, long k) {
     Buf<T> dst(n + 1);
     std::string ret;
     bool threw = false;
+    printHead(Lib::tag(), A::name(), MkT::name(), Tr<T>::name(), n, k);
     G().throwingEvents = 0;
     G().countdown = k;
     try {
@@ -743,7 +748,7 @@ long runCtor(long n, long k) {
     events = G().throwingEvents;
     std::vector<long> claimed;
     std::string ds = slotStates(dst.data, dst.cnt, claimed);
-    printLine(Lib::tag(), A::name(), MkT::name(), Tr<T>::name(), n, k, ret, threw, ds, "-");
+    printTail(ret, threw, ds, "-");
     killAll(dst.data, dst.cnt);
   }
   if (G().live != 0) std::printf("LEAK %s %s %s n=%ld k=%ld live-after-cleanup=%ld\n", Lib::tag(), A::name(), MkT::name(), n, k, G().live);
@@ -758,6 +763,7 @@ long runDtor(long n, long k) {
     PtrSrc<T> src(n + 1);
     std::string ret;
     bool threw = false;
+    printHead(Lib::tag(), A::name(), MkT::name(), Tr<T>::name(), n, k);
     G().throwingEvents = 0;
     G().countdown = k;
     try {
@@ -769,7 +775,7 @@ long runDtor(long n, long k) {
     events = G().throwingEvents;
     std::vector<long> claimed;
     std::string ss = src.states(claimed);
-    printLine(Lib::tag(), A::name(), MkT::name(), Tr<T>::name(), n, k, ret, threw, "-", ss);
+    printTail(ret, threw, "-", ss);
     src.cleanup();
   }
   return events;
